@@ -105,13 +105,13 @@ func ProfileOpts(p string) RandomOpts {
 	case "rollout": // C03, C06: workload status changes, drift, no ownership games
 		return RandomOpts{EnvProb: 0.35, EnvBudget: 4, Settle: true}
 	case "collision": // C01, C02: third parties re-own / create between reconciles
-		return RandomOpts{EnvProb: 0.35, EnvBudget: 6, AllowReown: true, Faults: 2, Conflicts: 3, Settle: true}
+		return RandomOpts{EnvProb: 0.35, EnvBudget: 6, AllowReown: true, Faults: 2, Conflicts: 3, Legacy: true, Settle: true}
 	case "teardown": // C04, C05
 		return RandomOpts{EnvProb: 0.3, EnvBudget: 6, AllowReown: true, AllowCRDelete: true, AllowArchive: true, AllowOrphan: true, Crashes: 1, Faults: 2, Settle: true}
 	case "pause": // C09
 		return RandomOpts{EnvProb: 0.4, EnvBudget: 8, AllowPause: true, AllowReown: true, Settle: true}
 	case "handover": // C02: revisions paused / archived / deleted mid-handover, no third-party ownership edits
-		return RandomOpts{EnvProb: 0.3, EnvBudget: 5, AllowPause: true, AllowArchive: true, AllowCRDelete: true, AllowOrphan: true, Faults: 2, Conflicts: 3, Settle: true}
+		return RandomOpts{EnvProb: 0.3, EnvBudget: 5, AllowPause: true, AllowArchive: true, AllowCRDelete: true, AllowOrphan: true, Faults: 2, Conflicts: 3, Legacy: true, Settle: true}
 	case "race": // C05: third party acts between PKO's read and its delete
 		return RandomOpts{EnvProb: 0.25, EnvBudget: 8, AllowReown: true, AllowCRDelete: true, AllowArchive: true, AllowOrphan: true, Race: true, Settle: true}
 	case "deploy": // C07, C08: template edits, lagging cache for creates, faults and crashes around the create
